@@ -14,7 +14,7 @@ from __future__ import annotations
 
 import copy
 import itertools
-from typing import Any, List, Optional
+from typing import List, Optional
 
 from bounded import ahbgen as G
 from specs import validation_spec as S
